@@ -33,7 +33,7 @@ def obligation_properties(name, kind, info, fn):
     if fn.endswith(".serialize"):
         if kind in ("mode-restored", "mode-restored-on-raise"):
             return {"C15"}
-        if kind == "wire":
+        if kind in ("wire", "accepts-valid"):
             return {"C02"}
         if kind in ("refuses-invalid", "no-exc", "none-use", "index", "writer-pre"):
             # an exception class that is neither SerializationError nor the writer's ValueError is wrong for invalid
@@ -80,8 +80,10 @@ def select_specs(tier, seed):
     if tier == "quick":
         out += G.sample_specs(2, 1000, seed)
     else:
-        out += [s for s in G.enumerate_specs(2) if s not in out]
-        out += G.sample_specs(3, 1500, seed)
+        # every pair of the core templates at every position, a large sample of all pairs, a sample of triples
+        out += list(G.enumerate_specs(2, templates=G.CORE))
+        out += G.sample_specs(2, 10000, seed)
+        out += G.sample_specs(3, 2000, seed)
     seen = set()
     uniq = []
     for ident, body in out:
